@@ -10,6 +10,7 @@ import (
 	"github.com/textwire/textwire/v2/config"
 
 	"verif/core"
+	"verif/model"
 )
 
 // C17 — Response writes the page or one error page, and leaks no detail
@@ -129,7 +130,108 @@ func init() {
 			if tier == core.Thorough {
 				reps = 6
 			}
-			return []core.Section{{Name: "response-matrix", Exhaustive: true, N: len(combos) * reps,
+			nRandom := 3000
+			if tier == core.Thorough {
+				nRandom = 60000
+			}
+			random := core.Section{Name: "generated-pages", N: nRandom, Run: func(c *core.Ctx, i int) {
+				g := newStmtGen(c.Rng, stmtGenOpts{MaxDepth: 1 + c.Rng.Intn(3), IfHeavy: i%2 == 0, LoopHeavy: i%3 == 0})
+				prog := sentinelTexts(g.program(2 + c.Rng.Intn(5)))
+				fault := []model.Stmt{
+					model.Print{E: model.Var{Name: "MISSING_IDENT_SENTINEL"}},
+					model.Print{E: model.Binary{Op: "/", L: model.Lit{V: model.Int(1)}, R: model.Var{Name: "zero"}}},
+					model.Print{E: model.Call{X: model.Var{Name: "di"}, Name: "nofn"}},
+				}[c.Rng.Intn(3)]
+				if i%5 != 0 {
+					prog = placeStmt(c.Rng, prog, fault, 3)
+				}
+				data := map[string]model.Value{}
+				for k, v := range g.data {
+					data[k] = v
+				}
+				data["zero"] = model.Int(0)
+				exp := expectRun(prog, data)
+				if exp.Unspecified {
+					return
+				}
+				debug := c.Rng.Intn(2) == 0
+				mode := errPageModes[c.Rng.Intn(len(errPageModes))]
+				files := map[string]string{"page.tw": model.PrintStmts(prog, model.Style{Layout: model.SpaceLayout})}
+				switch mode {
+				case "valid":
+					files["errors/oops.tw"] = customPageText
+				case "failing":
+					files["errors/oops.tw"] = "CUSTOM-SENTINEL start {{ 1 / 0 }}"
+				}
+				dir := "c17gen-DIRSENTINEL"
+				if err := writeFilesFresh(dir, files); err != nil {
+					c.Inconclusive(err.Error())
+					return
+				}
+				textwire.VerifResetConfig()
+				cfg := &config.Config{TemplateDir: dir, TemplateExt: ".tw", DebugMode: debug}
+				if mode != "none" {
+					cfg.ErrorPagePath = "errors/oops"
+				}
+				desc := map[string]any{"debug": debug, "custom_error_page": mode, "files": describeFiles(files), "data": model.DescribeData(data), "model_expects_failure": exp.Fails}
+				c.Input(desc)
+				var tpl *textwire.Template
+				var lerr error
+				c.Eval(1)
+				if c.Guard(func() { tpl, lerr = textwire.NewTemplate(cfg) }) {
+					return
+				}
+				if lerr != nil || tpl == nil {
+					c.Violation("response:generated:load-failed", fmt.Sprintf("the page did not load: %v", lerr), desc)
+					return
+				}
+				rec := newRecorder()
+				var rerr error
+				c.Eval(1)
+				if c.Guard(func() { rerr = tpl.Response(rec, "page", model.NativeData(data)) }) {
+					return
+				}
+				body := rec.body.String()
+				c.Nontrivial(fmt.Sprint(files, debug, mode))
+				if !exp.Fails {
+					c.Count("successful_responses", 1)
+					if rerr != nil || body != exp.Out {
+						c.Violation("response:generated:success", fmt.Sprintf("Response gave (%q, %v), the complete page is %q", clipS(body, 300), rerr, clipS(exp.Out, 300)), desc)
+					}
+					return
+				}
+				c.Count("failing_responses", 1)
+				if rerr == nil {
+					c.Violation("response:generated:nil-error", fmt.Sprintf("rendering fails but Response returned nil; body %q", clipS(body, 300)), desc)
+					return
+				}
+				if strings.Contains(body, "PAGE-SENTINEL") {
+					c.Violation("response:generated:page-leaked", fmt.Sprintf("the body contains part of the failed page: %q", clipS(body, 400)), desc)
+				}
+				switch {
+				case mode == "valid" && !debug:
+					if body != customPageText {
+						c.Violation("response:generated:wrong-error-page", fmt.Sprintf("expected the custom error page, body is %q", clipS(body, 300)), desc)
+					}
+				case mode != "none" && !debug:
+					if body != "" {
+						c.Violation("response:generated:wrong-error-page", fmt.Sprintf("the custom error page itself fails, the body must be empty but is %q", clipS(body, 300)), desc)
+					}
+				default:
+					if strings.Count(body, builtinMarker) != 1 {
+						c.Violation("response:generated:wrong-error-page", fmt.Sprintf("expected exactly one built-in error page, body is %q", clipS(body, 300)), desc)
+					}
+				}
+				if !debug {
+					for _, d := range []string{"DIRSENTINEL", "MISSING_IDENT_SENTINEL", "division by zero", "nofn", ".tw", "Textwire ERROR"} {
+						if strings.Contains(body, d) {
+							c.Violation("response:generated:detail-leaked", fmt.Sprintf("debug mode is off but the body contains %q", d), desc)
+							break
+						}
+					}
+				}
+			}}
+			return []core.Section{random, {Name: "response-matrix", Exhaustive: true, N: len(combos) * reps,
 				Run: func(c *core.Ctx, i int) {
 					// a seeded permutation, so that configurations alternate inside each worker
 					perm := core.NewRng("C17-perm", c.Seed, i/len(combos)).Perm(len(combos))
@@ -254,4 +356,42 @@ func init() {
 func writeFilesFresh(dir string, files map[string]string) error {
 	os.RemoveAll(dir)
 	return writeFiles(dir, files)
+}
+
+// sentinelTexts marks every text statement of a program, at any depth
+func sentinelTexts(stmts []model.Stmt) []model.Stmt {
+	out := make([]model.Stmt, len(stmts))
+	for i, st := range stmts {
+		switch n := st.(type) {
+		case model.Text:
+			out[i] = model.Text{S: "PAGE-SENTINEL" + n.S}
+		case model.If:
+			cp := n
+			cp.Bodies = make([][]model.Stmt, len(n.Bodies))
+			for b := range n.Bodies {
+				cp.Bodies[b] = sentinelTexts(n.Bodies[b])
+			}
+			if n.Else != nil {
+				cp.Else = sentinelTexts(n.Else)
+			}
+			out[i] = cp
+		case model.Each:
+			cp := n
+			cp.Body = sentinelTexts(n.Body)
+			if n.Else != nil {
+				cp.Else = sentinelTexts(n.Else)
+			}
+			out[i] = cp
+		case model.For:
+			cp := n
+			cp.Body = sentinelTexts(n.Body)
+			if n.Else != nil {
+				cp.Else = sentinelTexts(n.Else)
+			}
+			out[i] = cp
+		default:
+			out[i] = st
+		}
+	}
+	return out
 }
